@@ -14,6 +14,8 @@ The abstract filespace (core Lean only): the vocabulary shared by every filespac
               The only path processing is `Path.norm` (= `ReduceAbsPath`, see
               `Proofs/Path.lean` for what it means: `reduce_eq_walk`, `reduce_plain`).
 
+  * `Run views S ops rs S'`  the same for a whole history over the filespace and its child views.
+
 `Step` is a relation only because a directory listing is specified as a *set* (duplicate-free,
 membership given by the tree); everything else is functional.
 
@@ -250,6 +252,28 @@ def Step (base : Path) (S : State) (op : Op) (r : Result) (S' : State) : Prop :=
     match norm raw with
     | none => r = .err
     | some _ => r = .ok
+
+/-! ### Histories: one filespace and the child views opened from it -/
+
+/-- the list of open views (their root paths; handle 0 is the filespace itself, `[]`) after a call
+through handle `h`: a successful `Filespace(raw)` through a view rooted at `b` opens `b ++ norm raw` -/
+def viewsAfter (views : List Path) (h : Nat) (op : Op) : List Path :=
+  match op, views[h]? with
+  | .filespace raw, some b =>
+    match norm raw with
+    | some q => views ++ [b ++ q]
+    | none => views
+  | _, _ => views
+
+/-- `Run views S ops rs S'`: the history `ops` (each call names the handle it goes through) started in
+state `S` with the open views `views` may produce exactly the results `rs` and end in `S'`.  A call
+through a handle that was never opened answers `err`. -/
+def Run (views : List Path) (S : State) : List (Nat × Op) → List Result → State → Prop
+  | [], rs, S' => rs = [] ∧ S' = S
+  | (h, op) :: rest, rs, S' =>
+    match views[h]? with
+    | none => ∃ rs', rs = .err :: rs' ∧ Run views S rest rs' S'
+    | some b => ∃ r S1 rs', rs = r :: rs' ∧ Step b S op r S1 ∧ Run (viewsAfter views h op) S1 rest rs' S'
 
 end FS
 end Goat
